@@ -93,7 +93,14 @@ ReportUfunc(n, c, o) ==
   /\ \A cl \in UfuncFails(c.op, c.d0, c.d1, c.out, r) : PFail(n, c, c.op, cl)
   /\ (~TUfunc(c.m, o, r) => TFail(n, c.op, c.m, o, r))
   /\ (~UOracleOK(o, c.op, c.els, c.k, c) => PrintT(ToJson([tag |-> "ORACLE", i |-> n])))
-
+\* ufuncs on units of the default registry: the value verdict comes from the harness' flags alone (observed
+\* within the stated tolerance of the exact rational result); T predicts the values only when c.tv
+URealRec(o) == IF o.raise THEN Raise ELSE Ret(o.kind, o.size, FALSE, o.warnR, \A j \in DOMAIN o.els : (o.els[j].mS \/ o.els[j].mP))
+ReportUReal(n, c, o) ==
+  LET r == URealRec(o)
+      m == IF c.tv \/ c.m.raise THEN c.m ELSE [c.m EXCEPT !.vok = r.vok] IN
+  /\ \A cl \in UfuncFails(c.op, c.d0, c.d1, c.out, r) : PFail(n, c, c.op, cl)
+  /\ (~TUfunc(m, o, r) => TFail(n, c.op, m, o, r))
 
 \* ---- comb family: exact expectation for element j (small classes), else the harness' flags
 CombSmall(c) == IsSmall(c.vc1) /\ (c.va[1] = "tr" \/ IsSmall(c.va[1]))
@@ -150,6 +157,7 @@ ReportComb(n, c, o) ==
 Next == /\ i <= Len(Obs)
         /\ LET c == Obs[i].c
                o == Obs[i].o IN
-           IF c.fam = "conv" THEN ReportConv(i, c, o) ELSE IF c.fam = "comb" THEN ReportComb(i, c, o) ELSE ReportUfunc(i, c, o)
+           IF c.fam = "conv" THEN ReportConv(i, c, o) ELSE IF c.fam = "comb" THEN ReportComb(i, c, o)
+           ELSE IF c.fam = "ureal" THEN ReportUReal(i, c, o) ELSE ReportUfunc(i, c, o)
         /\ i' = i + 1
 =============================================================================
